@@ -38,7 +38,7 @@ class C11(Prop):
             "documented phase formula; periodic pulse trains. Non-trivial = >=2 blocks or maxdelay>0; distinct by case.")
     assumptions = ["the float phase formula is evaluated by the harness with the kernel's own IEEE operations "
                    "(validated, not proved)", "integer-valued data so float32 sums are exact", "whole-file folds"]
-    regimes_expected = ["fil", "fil-dm", "tim", "periodic"]
+    regimes_expected = ["fil", "fil-dm", "fil-dm-clamped-gulp", "tim", "periodic"]
     budget_s = (150, 1200)
 
     def _case(self, rng, kind=None):
@@ -54,8 +54,12 @@ class C11(Prop):
              "period": m * TSAMP, "accel": rng.choice((0.0, 0.0, 50.0, -300.0)), "dm": 0.0,
              "g": rng.choice((3, 7, 16, N, N + 5, rng.randint(1, N))), "dseed": rng.randrange(1 << 30)}
         if kind == "fil-dm":
-            c["dm"] = rng.choice((1.0, 3.0, 6.0))
-            c["C"] = max(C, 2)
+            # DMs large enough that the per-channel delays are really non-zero (max delay 1 … ~25 samples),
+            # and gulps on both sides of 2*maxdelay so that the clamped-gulp path runs over several blocks
+            c["dm"] = rng.choice((6.0, 20.0, 40.0, 80.0, 150.0))
+            c["C"] = max(C, rng.choice((2, 4, 8)))
+            c["N"] = max(N, rng.choice((120, 200, 300)))
+            c["g"] = rng.choice((3, 7, 16, 25, 40, 64, c["N"], rng.randint(1, c["N"])))
         if kind == "periodic":
             c["period"] = rng.choice((4, 5, 8, 10)) * TSAMP
             c["accel"] = 0.0
@@ -64,7 +68,12 @@ class C11(Prop):
 
     def corpus(self):
         return [{"kind": "fil-dm", "nbins": 4, "nints": 2, "nbands": 2, "C": 4, "N": 100, "nbits": 8, "period": 5 * TSAMP,
-                 "accel": 0.0, "dm": 3.0, "g": 7, "dseed": 1}]
+                 "accel": 0.0, "dm": 3.0, "g": 7, "dseed": 1},
+                # gulp < 2*maxdelay (delays 0..12 at dm=60, 8 channels) over several blocks
+                {"kind": "fil-dm", "nbins": 5, "nints": 2, "nbands": 2, "C": 8, "N": 160, "nbits": 8, "period": 7.3 * TSAMP,
+                 "accel": 0.0, "dm": 60.0, "g": 15, "dseed": 2},
+                {"kind": "fil-dm", "nbins": 4, "nints": 3, "nbands": 3, "C": 8, "N": 200, "nbits": 32, "period": 5 * TSAMP,
+                 "accel": 50.0, "dm": 150.0, "g": 7, "dseed": 3}]
 
     def gen(self, rng, tier):
         k = 1 if tier == "quick" else 6
@@ -199,6 +208,12 @@ class C11(Prop):
         return None
 
     def regime(self, case, obs):
+        if case["kind"] == "fil-dm" and obs.get("delays"):
+            md = max(obs["delays"])
+            if md > 0 and case["g"] < 2 * md and 2 * md < case["N"] - md:
+                return "fil-dm-clamped-gulp"     # gulp raised to 2*maxdelay, several blocks
+            if md == 0:
+                return "fil-dm-zero-delay"
         return case["kind"]
 
     def nontrivial(self, case, obs):
